@@ -190,6 +190,7 @@ def trace_assemble(src: str, rom: str = "low_rom", cwd: str | None = None, timeo
                                 rec["pc"] = n.resolver.pc if hasattr(n, "resolver") else None
                                 if rec["cls"] in ("LabelNode", "BinaryNode"):
                                     rec["label_value"] = n.resolver.current_scope.labels.get(rec["name"])
+                                    rec["symbol_value"] = n.resolver.current_scope.symbols.get(rec["name"])
                                 b = orig_emit(cur)
                                 rec["bytes"] = bytes(b)
                                 if rec["cls"] in ("CodePositionNode", "RelocationAddressNode"):
